@@ -69,9 +69,30 @@ func execReason(c ReasonCase) (v ev.Verdict) {
 			continue
 		}
 		live := m.Live()
-		res := sim.Build(projsim.BuildReq{Label: m.Label(live[op.T%len(live)])})
+		var twinEvents []projsim.Event
+		if op.Always {
+			// a forced build: what differs is taken from an ordinary build of a full copy of tree and state
+			if twin, err := sim.CloneFull(); err == nil {
+				twinEvents = twin.Build(projsim.BuildReq{Label: m.Label(live[op.T%len(live)])}).Events
+				twin.Close()
+			}
+		}
+		res := sim.Build(projsim.BuildReq{Label: m.Label(live[op.T%len(live)]), Always: op.Always})
 		if res.Panic != "" {
 			return ev.Failf("panic", "op %d: build panics: %s", n, res.Panic)
+		}
+		for _, te := range twinEvents {
+			if te.Kind != "Evaluating" || !te.HasDiff || len(te.DiffKeys) == 0 {
+				continue
+			}
+			for _, e := range res.Events {
+				if e.Kind == "Evaluating" && e.Label == te.Label {
+					v.Classes = append(v.Classes, "forced-build-with-changed-environment")
+					if why := reasonNames(e.Text, te.DiffKeys, te.SameKeys); why != "" {
+						return ev.Failf("reason-mismatch", "op %d (forced build): %s is re-evaluated with reason %q; the parts of its environment that differ are %v: %s", n, e.Label, e.Text, te.DiffKeys, why)
+					}
+				}
+			}
 		}
 		for _, e := range res.Events {
 			if e.Kind != "Evaluating" {
@@ -112,7 +133,9 @@ func genReason(t *rapid.T) ReasonCase {
 	var ops []projsim.Op
 	for i := 0; i < n; i++ {
 		if rapid.IntRange(0, 2).Draw(t, "isbuild") == 2 {
-			ops = append(ops, projsim.GenBuild(t, false, false, false))
+			b := projsim.GenBuild(t, false, false, false)
+			b.Always = rapid.IntRange(0, 3).Draw(t, "forced") == 3
+			ops = append(ops, b)
 		} else if rapid.IntRange(0, 5).Draw(t, "oldrec") == 5 {
 			ops = append(ops, projsim.Op{Kind: "old-record", T: rapid.IntRange(0, 11).Draw(t, "ort")})
 		} else {
